@@ -135,6 +135,23 @@ func NewPacketDslParserByContent(data string) (*gen.PacketDslParser, *antlr.Comm
 	return parser, stream, nil
 }
 
+// parseWholeInput runs the start rule with the listener attached to the lexer and the parser, and
+// reports input left over after the last definition (the start rule does not end in EOF).
+func parseWholeInput(parser *gen.PacketDslParser, stream *antlr.CommonTokenStream, listener *SyntaxErrorListener) gen.IPacketContext {
+	if lexer, ok := stream.GetTokenSource().(*gen.PacketDslLexer); ok {
+		lexer.RemoveErrorListeners()
+		lexer.AddErrorListener(listener)
+	}
+	parser.RemoveErrorListeners()
+	parser.AddErrorListener(listener)
+	tree := parser.Packet()
+	if rest := stream.LT(1); rest != nil && rest.GetTokenType() != antlr.TokenEOF {
+		msg := fmt.Sprintf("extraneous input '%s' expecting a definition or end of input", rest.GetText())
+		listener.SyntaxError(parser, rest, rest.GetLine(), rest.GetColumn(), msg, nil)
+	}
+	return tree
+}
+
 // RenderToString render tmpl
 func RenderToString(tmpl string, lang string, data interface{}) (string, error) {
 	t := template.Must(template.New(lang).Parse(tmpl))
